@@ -529,6 +529,30 @@ func c10Families(tier string) []explore.Family {
 		}
 	}})
 
+	// --- when-values that are not scalars: a range literal, a list or a map never EQUALS a number or a string inside
+	// it (case compares by ==, it does not test membership)
+	nsWhens := []string{"(1..5)", "(3..3)", "(0..0)", "(a..b)", "l", "m", "l.first", "(1..5), 7", "7, (1..5)"}
+	nsSubjects := []struct {
+		src  string
+		hits map[string]bool
+	}{{"3", map[string]bool{"l.first": true}}, {"0", nil}, {"1", nil}, {"5", nil}, {"'3'", nil}, {"7", map[string]bool{"(1..5), 7": true, "7, (1..5)": true}}, {"'k'", nil}, {"n3", map[string]bool{"l.first": true}}, {"2.0", nil}}
+	fams = append(fams, explore.Family{Name: "case-when-non-scalar-values", Count: int64(len(nsWhens) * len(nsSubjects)), Run: func(i int64, r *explore.Rec) {
+		w, sj := nsWhens[int(i)%len(nsWhens)], nsSubjects[int(i)/len(nsWhens)]
+		src := "{% case " + sj.src + " %}{% when " + w + " %}W{% else %}E{% endcase %}|{% case " + sj.src + " %}{% when 'zz' %}Z{% when " + w + " %}W{% endcase %}"
+		want := "E|"
+		if sj.hits[w] {
+			want = "W|W"
+		}
+		r.Eval()
+		r.Transition()
+		r.Trace()
+		o := Render(c10.eng, src, map[string]any{"a": 1, "b": 5, "l": []any{3, 4, 5, 7}, "m": map[string]any{"k": 3, "3": 3}, "n3": 3})
+		r.Class("case-non-scalar-when")
+		if o.Panic != nil || o.Err != nil || o.Out != want {
+			r.Violation("wrong-branch:case:non-scalar-when-value", map[string]any{"template": src}, want, o.String())
+		}
+	}})
+
 	// --- deep nesting: depth 1..40, the first failing condition at every level (or none), four shapes per level
 	// (if/else, unless/else, if/elsif/else with the elsif taken, case/when/else); exactly one path is rendered
 	const deepMax = 40
